@@ -44,6 +44,9 @@ CHECKS = {
  "C16": ("2/C16", TECH + ": complete space (spec names u table keys) x arity 0..4 x configs x compilers",
          "finite space enumerated completely in both tiers against the table under check and a hand-written specification signature table",
          "specification signature table hand-written in the harness"),
+ "C20": ("2/C20", TECH + ": schema-indexed finite spaces: 146 resource types, 49 extension value types, all extension lists up to length 4 x mutators, extraction over the schema-covering resource family",
+         "every resource type, every Extension.value[x] alternative (read from the proto descriptors, not from the repository's registry), every extension list up to the bound under every mutator, and every element of the covering resource family is pushed through the real wrappers / extractors and compared by pointer identity, with a list model and with the jsonformat tree",
+         "resources nested deeper than the depth bound and values outside the generator pools are not covered; jsonformat is trusted"),
 }
 ALL = ["C%02d" % i for i in range(1, 21)]
 checks = []
